@@ -313,7 +313,7 @@ Theorem built_ctor_calls : forall fms p r,
 Proof.
   intros fms [| |ms] r H.
   - unfold discover in H. apply finish_init_ctors in H. simpl in H. tauto.
-  - discriminate.
+  - unfold discover in H. destruct fms; [|discriminate]. apply finish_init_ctors in H. simpl in H. tauto.
   - rewrite discover_present in H.
     destruct (scan_items fms (items (PkgPresent ms)) (mkScan [] [])) as [st [e|]] eqn:E; [discriminate|].
     apply scan_items_ctors in E. simpl in E. apply finish_init_ctors in H.
@@ -325,7 +325,9 @@ Theorem raised_ctor_calls_prefix : forall fms p e c,
 Proof.
   intros fms [| |ms] e c H.
   - unfold discover in H. apply finish_init_raised_ctors in H. subst. now exists [].
-  - inversion H. now exists [].
+  - unfold discover in H. destruct fms.
+    + apply finish_init_raised_ctors in H. subst. now exists [].
+    + inversion H. now exists [].
   - rewrite discover_present in H.
     destruct (scan_items fms (items (PkgPresent ms)) (mkScan [] [])) as [st [e0|]] eqn:E.
     + inversion H; subst. apply scan_items_ctors in E. simpl in E.
@@ -554,9 +556,9 @@ Qed.
 
 Theorem no_fms_raises_iff : forall p,
   (exists e c, discover false p = Raised e c) <->
-  (p = PkgInitFails \/ import_fault p \/ ctor_fault p \/ duplicate_names p \/ several_defaults p).
+  (package_fault p \/ import_fault p \/ ctor_fault p \/ duplicate_names p \/ several_defaults p).
 Proof.
-  intros p; split.
+  unfold package_fault. intros p; split.
   - intros [e [c H]]. eapply no_fms_raised; eauto.
   - intros Hf. destruct (discover false p) as [r|e c] eqn:E; [|eauto].
     exfalso. apply no_fms_built in E. destruct E as [E0 [E1 [E2 [E3 [E4 _]]]]].
@@ -578,11 +580,11 @@ Proof.
   destruct (default_keys (s_modes st)) as [|d0 [|d1 ds]]; eauto.
 Qed.
 
-Theorem fms_never_raises : forall p, p <> PkgInitFails -> exists r, discover true p = Built r.
+Theorem fms_never_raises : forall p, exists r, discover true p = Built r.
 Proof.
-  intros [| |ms] H.
+  intros [| |ms].
   - apply discover_missing_built.
-  - congruence.
+  - apply (discover_missing_built true).
   - rewrite discover_present.
     destruct (scan_items_fms_ok (items (PkgPresent ms)) (mkScan [] [])) as [st' E]. rewrite E.
     apply finish_init_fms_built.
@@ -651,7 +653,8 @@ Lemma discover_built_inv : forall fms p r,
 Proof.
   intros fms [| |ms] r H.
   - exists (mkScan [] []). split; [exact H|]. split; [constructor|reflexivity].
-  - discriminate.
+  - unfold discover in H. destruct fms; [|discriminate].
+    exists (mkScan [] []). split; [exact H|]. split; [constructor|reflexivity].
   - rewrite discover_present in H.
     destruct (scan_items fms (items (PkgPresent ms)) (mkScan [] [])) as [st [e|]] eqn:E; [discriminate|].
     exists st. split; [exact H|]. split; [|reflexivity].
@@ -1256,7 +1259,6 @@ Proof.
 Qed.
 
 Theorem fms_tolerates : forall p,
-  p <> PkgInitFails ->
   exists r, discover true p = Built r /\
     (no_key_clash p ->
      forall i, In i (needed p) -> healthy i = true ->
@@ -1265,7 +1267,7 @@ Theorem fms_tolerates : forall p,
                  In k (option_names r) /\
                  (choosable k -> chooser_selected (chooser_of r) (Some k) = Some i)).
 Proof.
-  intros p Hp. destruct (fms_never_raises p Hp) as [r Hr]. exists r. split; [assumption|].
+  intros p. destruct (fms_never_raises p) as [r Hr]. exists r. split; [assumption|].
   intros Hc i Hi Hh. destruct (fms_modes _ _ Hr Hc) as [H1 _].
   destruct (H1 i Hi Hh) as [k [Hk Hg]]. exists k. repeat split; auto.
   - apply (built_option_names _ _ _ Hr). right. apply dict_get_not_None_In. congruence.
@@ -1292,9 +1294,14 @@ Qed.
 (* ================================================================== *)
 (* 11. Where the code differs from the wording of the property         *)
 
-(* (a) a failing import of the package itself is raised even with the FMS *)
-Theorem fms_package_failure_raises : discover true PkgInitFails = Raised ErrPackage [].
-Proof. reflexivity. Qed.
+(* (a) [repaired in /repo, 87f7d89] a failing import of the package itself is
+   tolerated with the FMS attached (nothing but "None" is offered) and raised
+   without it *)
+Theorem package_failure_policy :
+  discover false PkgInitFails = Raised ErrPackage [] /\
+  exists r, discover true PkgInitFails = Built r /\
+    modes r = [] /\ ctor_calls r = [] /\ option_names r = ["None"] /\ preselection r = "None".
+Proof. split; [reflexivity|]. eexists. split; [vm_compute; reflexivity|]. vm_compute. auto. Qed.
 
 (* (b) a MODE_NAME that equals an artificial duplicate key: with the FMS the
    healthy mode A0 is overwritten by the renamed duplicate B and is not offered *)
